@@ -861,6 +861,14 @@ func (ctx *Context) evaluate() {
 				return
 			}
 
+		case typeStoreNameLocal:
+			// this.x = v : 写入当前作用域(此前该指令没有对应的实现，赋值被静默丢弃)
+			if e.top <= 0 {
+				ctx.Error = errors.New("E3:无效的表达式")
+				return
+			}
+			ctx.StoreNameLocal(code.Value.(string), e.stack[e.top-1].Clone())
+
 		case typeJe, typeJeDup:
 			v := stackPop()
 			if v.AsBool() {
